@@ -28,6 +28,7 @@ RULE += (' Also: every planned failure sweeps the exception type; fault cases fo
 RULE += (' Also: a failing callable: the call sync(f)(x) itself must return an awaitable, the failure comes out of awaiting it.')
 RULE += (' Also: sync() of two related callables (wraps copy, object copy, bound methods, subclass) in both orders.')
 RULE += (' Also: what an awaitable resolves to may itself be awaitable payload (delivered, not awaited again).')
+RULE += (' Also: a StopAsyncIteration raised by an awaitable given to await_each surfaces as RuntimeError (caused by it), the stream does not end quietly.')
 ASSUMPTIONS = ["direct specification oracle (no stdlib twin exists for these helpers)"]
 EXHAUSTIVE = {"quick": True, "thorough": True}
 MAX_SHARDS = 8
@@ -105,7 +106,10 @@ def cases(tier, seed, shard, nshards):
                                            "exc": GEN_EXC[idx % len(GEN_EXC)]}
             for cont in ("list", "iterator"):
                 for susp in (0, 1, 2):
-                    for exc in GEN_EXC:
+                    # (a StopAsyncIteration / StopIteration from an awaitable - the head of an exhausted iterator,
+                    # say - cannot leave an async generator as such: it surfaces as the interpreter's RuntimeError,
+                    # it does NOT quietly end the stream)
+                    for exc in GEN_EXC + ["StopAsyncIteration"]:
                         idx += 1
                         if idx % nshards == shard:
                             yield {"kind": "await_each_fault", "n": n, "at": at, "cont": cont, "susp": susp, "exc": exc}
@@ -298,7 +302,13 @@ def run_await_each_fault(case, stats):
     head = f"await_each {case}"
     if len(got) != at or any(a is not b for a, b in zip(got, items)):
         viols.append({"key": "await_each/items-before-failure", "msg": f"{head}: got {[canon(x) for x in got]}"})
-    if end.get("exc") is not exc:
+    if case["exc"] == "StopAsyncIteration":
+        surfaced = end.get("exc")
+        if not (isinstance(surfaced, RuntimeError) and surfaced.__cause__ is exc):
+            viols.append({"key": "await_each/stop-signal-of-an-awaitable-ends-the-stream",
+                          "msg": f"{head}: the awaitable's StopAsyncIteration surfaced as {surfaced!r} (expected the "
+                                 f"interpreter's RuntimeError caused by it)"})
+    elif end.get("exc") is not exc:
         viols.append({"key": "await_each/exception", "msg": f"{head}: the injected exception surfaced as {end.get('exc')!r}"})
     if events != [("await", i) for i in range(at + 1)] or end.get("after") != "stop":
         viols.append({"key": "await_each/continues-after-failure", "msg": f"{head}: awaited {events}, then {end.get('after')}"})
